@@ -136,6 +136,72 @@ Theorem C18_upstream_state_relevant :
 Proof. exact upstream_state_relevant. Qed.
 Print Assumptions C18_upstream_state_relevant.
 
+(* ---- (a'') LINKED: the stages other properties model (C18/LinkStages.v).
+   A stage = a function of (input, explicit state) + the function building its
+   fresh state from the input; a process keeps the state of the last run but
+   every run starts from the fresh one.  Generic: any stage, hence any pipeline
+   built with [seq] / [par], is history-independent. ---- *)
+From T4V Require Import Base.Scalar C18.LinkStages.
+From T4V Require C05.Model C06.Model C11.Model C12.Model C12.Cards C13.Model C13.ModelTr C15.Model.
+
+Theorem C18_stage_history_independent : forall (s : stage) hist1 hist2 p1 p2 i d,
+  last (snd (proc_history s p1 (hist1 ++ [i]))) d
+  = last (snd (proc_history s p2 (hist2 ++ [i]))) d.
+Proof. exact stage_history_independent. Qed.
+Print Assumptions C18_stage_history_independent.
+
+(* contrast: with the state kept between runs a stage is not history-independent *)
+Theorem C18_leaky_stage_depends_on_history :
+  snd (proc_step_leaky counter_stage (fst (proc_step_leaky counter_stage None tt)) tt)
+  <> snd (proc_step counter_stage (fst (proc_step counter_stage None tt)) tt).
+Proof. exact leaky_stage_depends_on_history. Qed.
+Print Assumptions C18_leaky_stage_depends_on_history.
+
+(* the owners' models ARE of that shape: each stage's fresh run is, literally,
+   the owner's function applied to a state built from the input alone (C12
+   parse_deck_text, C15 parse_all, C11 eliminate_all = the pot_complement loop,
+   C06 develop_lattice, C05 fill_phase from empty caches, C13 pot_fill_tr, and
+   C18's own full_conversion) *)
+Theorem C18_stage_shapes_linked :
+  forall (F : Type) (SF : Scalar F) (prims12 : C12.Model.prims F) (T5 surf5 : Type)
+         (tr_empty : T5 -> bool) (teqb : T5 -> T5 -> bool) (tr_surf : T5 -> surf5 -> surf5)
+         (Tr13 : Type) (treqb : Tr13 -> Tr13 -> bool) (fuel cf : nat) (ifd ifg : bool)
+         (order : list Z -> list Z),
+    (forall i, fst (fresh_run (st_parse12 F SF prims12) i)
+               = C12.Cards.parse_deck_text SF prims12 (fst (fst i)) (snd (fst i)) (snd i)) /\
+    (forall i, fst (fresh_run (st_like15 F SF) i) = C15.Model.parse_all SF (fst i) (snd i)) /\
+    (forall tbl, fst (fresh_run (st_complement11 fuel) tbl) = C11.Model.eliminate_all fuel tbl) /\
+    (forall i, fst (fresh_run (st_lattice06 F SF) i)
+               = C06.Model.develop_lattice SF (fst (fst i)) (snd (fst i)) (snd i)) /\
+    (forall cells surfs nck nsk,
+        fst (fresh_run (st_fill05 T5 surf5 tr_empty teqb tr_surf fuel cf ifd ifg)
+                       (cells, surfs, nck, nsk))
+        = @C05.Model.fill_phase T5 surf5 tr_empty teqb tr_surf fuel cf ifd ifg
+                               (@C05.Model.mkSt T5 surf5 cells surfs nck nsk [] [])) /\
+    (forall dic0 trs key st,
+        fst (fresh_run (st_fill13 Tr13 treqb fuel ifd ifg) (dic0, trs, key, st))
+        = C13.ModelTr.pot_fill_tr treqb fuel ifd ifg dic0 trs key st) /\
+    (forall fs x, snd (fst (fresh_run (st_c18 order) x)) = snd (full_conversion order fs x)).
+Proof. exact stage_shapes. Qed.
+Print Assumptions C18_stage_shapes_linked.
+
+(* all those stages side by side (C05 fill -> inline and C18 upstream ->
+   conversion composed sequentially): for every history of earlier conversions
+   in the same process the outputs of ALL stages for the last input are the
+   outputs of a fresh process *)
+Theorem C18_history_independent_linked :
+  forall (F : Type) (SF : Scalar F) (prims12 : C12.Model.prims F) (T5 surf5 : Type)
+         (tr_empty : T5 -> bool) (teqb : T5 -> T5 -> bool) (tr_surf : T5 -> surf5 -> surf5)
+         (Tr13 : Type) (treqb : Tr13 -> Tr13 -> bool) (fuel cf : nat) (ifd ifg : bool)
+         (order : list Z -> list Z) (num den : Z),
+  let pl := pipeline F SF prims12 T5 surf5 tr_empty teqb tr_surf Tr13 treqb fuel cf ifd ifg
+                     order num den in
+  forall (hist1 hist2 : list (s_in pl)) (p1 p2 : proc pl) (i : s_in pl) (d : s_out pl),
+  last (snd (proc_history pl p1 (hist1 ++ [i]))) d
+  = last (snd (proc_history pl p2 (hist2 ++ [i]))) d.
+Proof. exact history_independent_linked. Qed.
+Print Assumptions C18_history_independent_linked.
+
 (* ---- (b) the effect-footprint audit: what [audit_ok] guarantees of ANY
    footprint; coq/generated/Footprint.v instantiates these on the footprint of
    the sources of the day, with [audit_ok allow footprint = true] proved by
